@@ -420,6 +420,14 @@ func sliceSafe(facts []engine.Fact, s *ssa.Slice) (bool, string) {
 				ok = true
 			}
 		}
+		// bound is the result of copy(x[:], ...): copy never returns more than len(dst)
+		if c, isCall := b.(*ssa.Call); isCall && !ok {
+			if bi, isB := c.Call.Value.(*ssa.Builtin); isB && bi.Name() == "copy" && len(c.Call.Args) == 2 {
+				if d, isS := c.Call.Args[0].(*ssa.Slice); isS && d.Low == nil && d.High == nil && engine.ValKey(d.X) == engine.ValKey(x) {
+					ok = true
+				}
+			}
+		}
 		if !ok {
 			return false, "variable bound " + bk + " not related to len of the sliced value"
 		}
